@@ -247,6 +247,47 @@ def run(facts, tier):
         t4.examined(k, True, {"reader_key": k, "writer_accepts": ok})
         if not ok:
             t4.violate(f"key/{k}", f"the XML reader produces objects with key `{k}` that the XML writer does not accept: fromxml | toxml fails")
+    # scalars: the writer takes tag names, attribute values and the parts of declarations as text only, so the reader must
+    # not produce booleans or numbers (e.g. `standalone` as true)
+    nconv = 0
+    for j_ in facts.mir("jaq_fmts"):
+        if not (j_["def"].startswith("jaq_fmts::read::xml::") or (j_.get("root") or "").startswith("jaq_fmts::read::xml::")) or j_.get("test"):
+            continue
+        b_ = Body(j_)
+        for i_, t_ in b_.calls():
+            if re.search(r"convert::(Into::into|From::from)$", t_.get("fn") or "") and (t_.get("gargs") or ["", ""])[-1] == "jaq_json::Val" or (re.search(r"convert::From::from$", t_.get("fn") or "") and (t_.get("gargs") or [""])[0] == "jaq_json::Val"):
+                src = [g_ for g_ in (t_.get("gargs") or []) if g_ != "jaq_json::Val"]
+                src = src[0] if src else "?"
+                nconv += 1
+                if re.match(r"^(bool|[iu]\d+|[iu]size|f32|f64)$", src):
+                    t4.violate(f"scalar/{src}", f"the XML reader turns a `{src}` into a value (`{j_['def']}`): the writer accepts only text for tags, attributes and declarations, so such a document cannot be written back (`standalone=\"yes\"` read as true is rejected by toxml)", where=t_["sp"])
+    t4.examined("reader-scalars", True, {"conversions_into_values_in_the_xml_reader": nconv})
+    # attribute values are written between quotation marks they do not contain
+    for fdef in (r"^<jaq_fmts::write::xml::Xml<.*> as core::fmt::Display>::fmt$", r"^jaq_fmts::write::xml::Xml::<.*>::write$"):
+        fs_ = facts.hir_find(fdef, "jaq_fmts")
+        if len(fs_) != 1:
+            t4.missing_anchor(fdef)
+            continue
+        def chooses_quote(n):
+            if n.get("k") != "If" or not any(re.search(r"::(contains|find_byte|memchr|find)$", c_) for c_ in callees(n["c"])):
+                return False
+            lits = {lit_bytes(x) for x in find([n.get("t"), n.get("f")], lambda y: y.get("k") == "Lit")}
+            return b"'" in lits and b'"' in lits
+        quote_choice = [n for n in find(fs_[0]["body"], chooses_quote)]
+        t4.examined(("attr-quotes", fs_[0]["def"]), True, {"writer": fs_[0]["def"].split("::")[-1], "quote_chosen_by_value": bool(quote_choice)})
+        if not quote_choice:
+            t4.violate("attr-quotes", f"`{fs_[0]['def']}` writes attribute values between fixed quotation marks: a value read from `x='say \"hi\"'` contains that mark and the output does not parse", where=fs_[0]["sp"])
+    # external identifiers of a DOCTYPE keep their quotation marks (the writer emits the `external` text verbatim)
+    dt = facts.hir_find(r"^jaq_fmts::read::xml::doctype$", "jaq_fmts")
+    if len(dt) != 1:
+        t4.missing_anchor("jaq_fmts::read::xml::doctype")
+    else:
+        bodies_ = [dt[0]["body"]] + [facts.hir_fn(c_)["body"] for c_ in callees(dt[0]["body"]) if c_.startswith("jaq_fmts::read::xml::") and facts.hir_fn(c_) is not None]
+        lits_ = [lit_bytes(x) or b"" for x in find(bodies_, lambda y: y.get("k") == "Lit")]
+        quotes = any(b'"' in l_ or b"'" in l_ for l_ in lits_)
+        t4.examined("doctype-external", True, {"external_identifier_literals_requoted": quotes})
+        if not quotes:
+            t4.violate("doctype-external", "the XML reader builds the `external` text of a DOCTYPE from the bare literals (`SYSTEM x.dtd`): the writer emits it verbatim and the result does not parse", where=dt[0]["sp"])
     rules.append(t4.finish())
 
     # ---------------- T14.5 YAML literals
